@@ -8,10 +8,10 @@ import (
 var verbs = []string{"GET", "POST", "PUT", "DELETE", "PATCH"}
 
 var litSegs = []string{"items", "users", "v1", "orders", "x-y", "a_b", "list", "k9", "reports", "meta"}
-var paramNames = []string{"id", "key", "slug", "num", "ref", "code"}
-var queryNames = []string{"limit", "page", "q", "sort", "flag", "ratio", "tags", "since", "level", "mode"}
+var paramNames = []string{"id", "key", "slug", "num", "ref", "code", "order-ref", "item_id"}
+var queryNames = []string{"limit", "page", "q", "sort", "flag", "ratio", "tags", "since", "level", "mode", "page-size", "sort_by"}
 var headerWire = []string{"X-Trace", "x-token", "X-Req-Id", "x-flag", "X-Num"}
-var formNames = []string{"title", "count", "active", "note", "amount"}
+var formNames = []string{"title", "count", "active", "note", "amount", "first-name", "zip_code"}
 var scopeWords = []string{"read", "write", "admin", "class", "method", "other"}
 
 var intPrims = []string{"int", "int8", "int16", "int32", "int64", "uint", "uint8", "uint16", "uint32", "uint64"}
@@ -169,6 +169,14 @@ func Generate(seed uint64, profile string) *Project {
 	}
 	p.Enforce = allSecured && r.Chance(1, 2)
 
+	// template extensions (swarm; comment-only, engine independent): exercises the generator's map walks
+	if profile == "order" && r.Chance(1, 2) {
+		names := []string{"RegisterRoutesExtension", "RouteStartRoutesExtension", "BeforeOperationRoutesExtension", "AfterOperationRoutesExtension",
+			"RouteEndRoutesExtension", "TypeDeclarationsExtension", "FunctionDeclarationsExtension", "JsonResponseExtension"}
+		Shuffle(r, names)
+		p.Extensions = append(p.Extensions, names[:r.Range(2, 4)]...)
+	}
+
 	// globs (swarm): per-package, or one wildcard over all first-level dirs
 	if r.Chance(1, 3) {
 		p.Globs = []string{"./*/*.go"}
@@ -192,6 +200,9 @@ func (g *genState) alt() Alt {
 	n := g.r.Range(0, 2)
 	for i := 0; i < n; i++ {
 		a.Scopes = append(a.Scopes, Pick(g.r, scopeWords))
+	}
+	if n == 0 && g.r.Chance(1, 2) {
+		a.Bare = true
 	}
 	return a
 }
@@ -277,7 +288,7 @@ func (g *genState) field(pkg string, idx int, depth int) Field {
 	if f.Type.Kind == "prim" && !f.Type.Slice {
 		switch {
 		case f.Type.Prim == "string" && g.r.Chance(1, 3):
-			f.Validate = Pick(g.r, []string{"required", "min=1,max=20", "omitempty,max=40"})
+			f.Validate = Pick(g.r, []string{"required", "min=1,max=20", "omitempty,max=40", "required,sim_probe"})
 		case strings.Contains(f.Type.Prim, "int") && g.r.Chance(1, 4):
 			f.Validate = Pick(g.r, []string{"gte=0", "lte=100", "gte=1,lte=9"})
 		}
@@ -406,7 +417,8 @@ func validateFor(r *Rand, t TypeRef) string {
 	}
 	switch {
 	case t.Prim == "string":
-		return Pick(r, []string{"", "", "required", "min=2", "max=8", "required,min=1,max=12"})
+		// sim_probe is the custom validator the simulator registers on every engine (a yield point)
+		return Pick(r, []string{"", "", "required", "min=2", "max=8", "required,min=1,max=12", "sim_probe", "required,sim_probe"})
 	case t.Prim == "bool":
 		return ""
 	case strings.HasPrefix(t.Prim, "float"):
@@ -485,8 +497,8 @@ func (g *genState) method(c *Controller, idx int, file string) Method {
 		if p.Type.Prim == "bool" && p.Type.Kind == "prim" {
 			p.Type.Prim = "int"
 		}
-		if r.Chance(1, 3) {
-			p.GoName = pn + "Arg"
+		if r.Chance(1, 3) || goIdent(pn) != pn {
+			p.GoName = goIdent(pn) + "Arg"
 			p.Wire = pn
 		} else {
 			p.GoName = pn
@@ -505,8 +517,8 @@ func (g *genState) method(c *Controller, idx int, file string) Method {
 			continue
 		}
 		p := Param{Loc: "query", GoName: n, Type: g.simpleType(c.Pkg, true)}
-		if r.Chance(1, 4) {
-			p.GoName = n + "Q"
+		if r.Chance(1, 4) || goIdent(n) != n {
+			p.GoName = goIdent(n) + "Q"
 			p.Wire = n
 		}
 		if usedGo[p.GoName] {
@@ -559,8 +571,14 @@ func (g *genState) method(c *Controller, idx int, file string) Method {
 					continue
 				}
 				p := Param{Loc: "form", GoName: n, Type: g.simpleType(c.Pkg, false)}
+				if goIdent(n) != n {
+					p.GoName, p.Wire = goIdent(n)+"F", n
+				}
+				if usedGo[p.GoName] {
+					continue
+				}
 				p.Validate = validateFor(r, p.Type)
-				usedWire["f:"+n], usedGo[n] = true, true
+				usedWire["f:"+n], usedGo[p.GoName] = true, true
 				m.Params = append(m.Params, p)
 			}
 		}
@@ -680,4 +698,23 @@ func eraseNames(segs []string) string {
 		}
 	}
 	return strings.Join(out, "/")
+}
+
+// goIdent turns a wire name into a Go identifier (order-ref -> orderRef, item_id -> itemId).
+func goIdent(s string) string {
+	var b strings.Builder
+	up := false
+	for _, c := range s {
+		if c == '-' || c == '_' || c == '.' {
+			up = true
+			continue
+		}
+		if up {
+			b.WriteString(strings.ToUpper(string(c)))
+			up = false
+		} else {
+			b.WriteRune(c)
+		}
+	}
+	return b.String()
 }
